@@ -61,6 +61,38 @@ META = {
                 note=_TB),
 }
 
+# ---- C15 (DREAM)
+
+
+PROPS.update({
+    "C15": grid_prop(50000, 2000000, size=400, floors={
+        "idx-draw:1.0": 0.10, "k-draw:1.0": 0.05, "idx-draw:0.0": 0.10, "accepted+rejected": 0.25,
+        "form:log": 0.3, "form:reg": 0.3, "upd:uniform": 0.1, "upd:gaussian": 0.1, "upd:user": 0.1, "upd:dist-none": 0.03, "upd:default-no_update": 0.05,
+        "weight:percent": 0.15, "weight:scripted": 0.15, "weight:const_one": 0.05, "weight:percent0": 0.05,
+        "dom:hypercube": 0.1, "dom:half-space": 0.08, "dom:initial-states-only": 0.03, "dom:own-box": 0.08,
+        "split:in-burnup": 0.1, "split:in-collect": 0.1, "accept:sticky": 0.2, "accept:counted": 0.4,
+        "tie:equal-pdf,u=1": 0.02, "iter:all-outside": 0.03, "chains:6": 0.08, "dims:3": 0.2}),
+})
+PROPS["C15"]["assumptions"] = [
+    "sanitizers (ASan+UBSan) see every memory error on the executed paths",
+    "the i-th inside() call of an iteration carries the proposal of chain i (one call per proposal is documented; the chain order is confirmed case by case by the proposal oracle s_i + w (s_k - s_j) + update)",
+    "accept:counted cases only: the sampler takes one uniform draw for each in-domain proposal whose pdf does not exceed the current one and none for the others "
+    "(accept:sticky cases make no assumption on number or order of the draws)",
+    "the accept rule is evaluated in the documented floating point form (ratio >= u, difference >= log u); cases where an equivalent form would decide differently are abandoned (label ambiguous-tie)",
+]
+
+META.update({
+    "C15": dict(technique="property-based testing (rapidcheck, structure-aware byte decoder) with a fully scripted environment: pdf, domain test, update, weight and the uniform generator are harness callbacks that log every call "
+                          "and drive an on-line reference model of the chains; ASan/UBSan",
+                text="Generated DREAM runs (1-6 chains, 1-3 dimensions, regular and log form, all built-in and user update rules, constant and scripted differential weights, burn-up/collect 0-6, optional split into two calls) are executed with a "
+                     "uniform generator scripted from the case bytes whose palette contains exactly 0 and exactly 1. At the start of every iteration and after every call the library's chain state and cached pdf values must equal (bitwise) the "
+                     "state produced by the stated accept rule from the logged proposals, pdf values and the scripted uniform of that iteration; every proposal must be s_i + w (s_k - s_j) + update for chain indices in range; the pdf batch must be "
+                     "exactly the proposals that passed the domain test; every recorded sample must satisfy the domain test and carry the pdf of that sample; the history must grow by collect x chains; the acceptance rate must equal the "
+                     "number of accepted proposals in collected iterations over the number of recorded samples; a run split into two consecutive calls must equal the single run bitwise under the same stream. Exploration.",
+                note=_TB + " Index draws are classified (labels, non-triviality, known-finding exclusion only) by the draw order of tsgDreamSample.hpp."),
+})
+
+
 # work-in-progress fragments (developer aid): props_extra/<name>.py may define PROPS / META dicts that are merged in
 import glob as _glob, importlib.util as _ilu, os as _os
 for _f in sorted(_glob.glob(_os.path.join(_os.path.dirname(_os.path.abspath(__file__)), "props_extra", "*.py"))):
